@@ -159,7 +159,10 @@ func ShareWithConfig[T any](config ShareConfig[T]) func(Observable[T]) Observabl
 
 				// Subscription between the source and the subject.
 				verifPoint("share.before-source-subscribe")
-				sourceSubscription.AddUnsubscribable(
+				// `currentSourceSubscription`, not the shared variable: that one is
+				// only valid under the mutex, and a source that terminates while it is
+				// being subscribed has already reset it.
+				currentSourceSubscription.AddUnsubscribable(
 					source.SubscribeWithContext(subscriberCtx, proxy),
 				)
 			}
